@@ -200,6 +200,16 @@ class _Subst(ast.NodeTransformer):
             self.env = saved
 
 
+def _duplicable(n):
+    """may the expression be evaluated twice without anybody noticing (no calls except pure ones, no fresh objects)"""
+    for x in ast.walk(n):
+        if isinstance(x, ast.Call) and not is_pure_call(x):
+            return False
+        if isinstance(x, (ast.Dict, ast.List, ast.Set, ast.ListComp, ast.DictComp, ast.SetComp, ast.GeneratorExp, ast.Lambda, ast.Await, ast.Yield, ast.YieldFrom, ast.NamedExpr)):
+            return False
+    return True
+
+
 def _is_boolean(n):
     if isinstance(n, ast.Compare):
         return True
@@ -287,8 +297,19 @@ def _concat_parts(node):
     return None
 
 
+_PAIRS = set()      # iteration variables known to be 2-tuples (items(), enumerate())
+
+
 class _Canon(ast.NodeTransformer):
     """algebraic normal forms of expressions (applied after substitution)"""
+
+    def visit_Tuple(self, node):
+        node = self.generic_visit(node)
+        if isinstance(node.ctx, ast.Load) and len(node.elts) == 2 and all(isinstance(e, ast.Subscript) and isinstance(e.value, ast.Name) and isinstance(e.slice, ast.Constant) for e in node.elts):
+            a, b = node.elts
+            if a.value.id == b.value.id and a.value.id in _PAIRS and a.slice.value == 0 and b.slice.value == 1:
+                return ast.Name(a.value.id, ast.Load())
+        return node
 
     def visit_BinOp(self, node):
         parts = _concat_parts(node)
@@ -914,6 +935,9 @@ class Summariser:
             if isinstance(value, (ast.BoolOp, ast.Compare, ast.UnaryOp)) and _is_boolean(value) and len(targets) == 1 and isinstance(targets[0], ast.Name):
                 mk = lambda c: ast.fix_missing_locations(ast.copy_location(ast.Assign(copy.deepcopy(targets), ast.Constant(c)), s))
                 return self._stmt(ast.fix_missing_locations(ast.copy_location(ast.If(value, [mk(True)], [mk(False)]), s)), p, in_loop)
+            if isinstance(value, ast.BoolOp) and isinstance(value.op, ast.Or) and len(value.values) == 2 and not _is_boolean(value) and _duplicable(value.values[0]):
+                mk = lambda v: ast.fix_missing_locations(ast.copy_location(ast.Assign(copy.deepcopy(targets), v), s))
+                return self._stmt(ast.fix_missing_locations(ast.copy_location(ast.If(value.values[0], [mk(value.values[0])], [mk(value.values[1])]), s)), p, in_loop)
             if isinstance(value, ast.IfExp):
                 mk = lambda v: ast.fix_missing_locations(ast.copy_location(ast.Assign(copy.deepcopy(targets), v), s))
                 return self._stmt(ast.fix_missing_locations(ast.copy_location(ast.If(value.test, [mk(value.body)], [mk(value.orelse)]), s)), p, in_loop)
@@ -941,10 +965,13 @@ class Summariser:
                 else:
                     vals = self._ev_multi(q, value, in_loop)
                 for r, vn in vals:
-                    if r.exit is None:
+                    if r.exit is not None:
+                        res.append(r)
+                        continue
+                    for r2, v2 in self._split_conditional(r, vn):
                         for t in targets:
-                            self._assign(t, vn, r, in_loop)
-                    res.append(r)
+                            self._assign(t, v2, r2, in_loop)
+                        res.append(r2)
             return res
         if isinstance(s, ast.AugAssign):
             cur = self._load(s.target)
@@ -967,6 +994,9 @@ class Summariser:
             if isinstance(v, ast.IfExp):
                 mk = lambda x: ast.fix_missing_locations(ast.copy_location(ast.Return(x), s))
                 return self._stmt(ast.fix_missing_locations(ast.copy_location(ast.If(v.test, [mk(v.body)], [mk(v.orelse)]), s)), p, in_loop)
+            if isinstance(v, ast.Call) and isinstance(v.func, ast.Name) and v.func.id == "bool" and len(v.args) == 1 and not v.keywords:
+                mk = lambda c: ast.fix_missing_locations(ast.copy_location(ast.Return(ast.Constant(c)), s))
+                return self._stmt(ast.fix_missing_locations(ast.copy_location(ast.If(v.args[0], [mk(True)], [mk(False)]), s)), p, in_loop)
             if isinstance(v, (ast.BoolOp, ast.Compare, ast.UnaryOp)) and _is_boolean(v):
                 mk = lambda c: ast.fix_missing_locations(ast.copy_location(ast.Return(ast.Constant(c)), s))
                 return self._stmt(ast.fix_missing_locations(ast.copy_location(ast.If(v, [mk(True)], [mk(False)]), s)), p, in_loop)
@@ -1056,6 +1086,9 @@ class Summariser:
                     bind_target(t.value, val)
             bind_target(s.target, itv)
             tt = itv.id if tnames or isinstance(s.target, (ast.Tuple, ast.List)) else text(self._load(s.target))
+            it_txt = text(itn)
+            if it_txt.endswith(".items()") or it_txt.startswith("enumerate("):
+                _PAIRS.add(itv.id)
             start = Path(env=body_env, nres=p.nres, nobj=p.nobj)
             sub = Table(self._seq(s.body, [start], in_loop=True))
             outs = []
@@ -1175,6 +1208,25 @@ class Summariser:
                 res.extend(self._unswitch(outer, Table(sel), loop))
             return res
         return [(p, sub)]
+
+    def _split_conditional(self, p, vn, depth=0):
+        """[(path, value)]: a value `a if c else b` (already evaluated) decides c on the path"""
+        if not isinstance(vn, ast.IfExp) or depth > 3:
+            return [(p, vn)]
+        f = formula(vn.test)
+        known = self._known(f, p)
+        outs = []
+        if known is None:
+            for a in sorted(atoms_of(f)):
+                p.trace.append(("test", a))
+        for pol, val in ((True, vn.body), (False, vn.orelse)):
+            if known is not None and known != pol:
+                continue
+            q = p.fork()
+            if known is None:
+                q.cond.append((f, pol))
+            outs.extend(self._split_conditional(q, val, depth + 1))
+        return outs
 
     def _if(self, s, p, tn, in_loop):
         f = formula(tn)
